@@ -566,6 +566,25 @@ def hist_compare(hist, op, req, o, ans: str) -> str:
     return ""
 
 
+def served_analytic(hist, req, o) -> bool:
+    """Every requested block is the analytic Jacobian of the harness discipline (exact derivatives rounded once)."""
+    E = exact_jac(hist, req["x"])
+    so, si = slices(hist["out_sizes"]), slices(hist["in_sizes"])
+    for on in req["outs"]:
+        for iname in req["ins"]:
+            try:
+                b = np.asarray(o["jac"][on][iname])
+            except KeyError:
+                return False
+            if b.shape != (so[on][1], si[iname][1]):
+                return False
+            for r in range(so[on][1]):
+                for c in range(si[iname][1]):
+                    if not float(np.real(b[r, c])) == float(E[so[on][0] + r][si[iname][0] + c]):
+                        return False
+    return True
+
+
 def chk_line(hist, op, req, ans: str) -> str | None:
     """`chk` line of the model for a check op: analytic (given) vs the model's approximated blocks."""
     pm = parse_blocks(ans)
@@ -760,6 +779,7 @@ def check_hists(res: Result, hists: list[dict[str, Any]]) -> None:
         prev = None
         agree = True
         seen_points: list[Any] = []
+        analytic_points: list[Any] = []
         for t, (op, o) in enumerate(zip(h["ops"], obs)):
             if op["op"] == "setstep":
                 state["step"] = op["step"]
@@ -792,6 +812,14 @@ def check_hists(res: Result, hists: list[dict[str, Any]]) -> None:
                              "protocol_lines": hist_lines(small)[0]})
             ans = answers[a0 + where[t]]
             msg = hist_compare(h, op, req, o, ans)
+            if msg and op["op"] == "lin" and h.get("cache") != "none" and req["x"] in analytic_points and "jac" in o:
+                # Discipline.check_jacobian linearized analytically at this point before: a cache that keeps every
+                # execution serves that (exact) Jacobian again — error 0, inside every bound
+                if served_analytic(h, req, o):
+                    res.count("hist:linearize-served-by-cached-analytic-jacobian")
+                    msg = ""
+            if op["op"] == "dchk":
+                analytic_points.append(req["x"])
             if not msg and (hi, t) in chk_pos and "verdict" in o:
                 want = chk_answers[chk_pos[(hi, t)]]
                 got = "1" if o["verdict"] else "0"
